@@ -42,7 +42,7 @@ def run(tier, seed):
     for n in range(0, maxlen):
         data = bytes((rnd.randrange(256) if i % 3 else (i * 37) % 256) for i in range(n))
         for off in (0, 1, 15, 16, 4096):
-            for prefix in ("", "> "):
+            for prefix in ("", "> ", "{0} ", "{{x}} ", "%s|", "{"):
                 plain = utils.hexdump(data, offset=off, prefix=prefix, output="string")
                 ok = True
                 obs = None
